@@ -301,6 +301,9 @@ class Engine:
                 return ("c", r)
             except Exception:
                 pass
+        # two different members of the same class (enum constants) are different values
+        if op in ("Is", "IsNot", "Eq", "NotEq") and a[0] == "f0" and b[0] == "f0" and len(a) == 3 and len(b) == 3 and a[1] == b[1] and a[1][0] == "class":
+            return ("c", (a[2] == b[2]) == (op in ("Is", "Eq")))
         # identity of fresh objects vs None
         if op in ("Is", "IsNot") and b == ("c", None) and a[0] == "new":
             return ("c", op == "IsNot")
@@ -456,6 +459,31 @@ class Engine:
             self.xsite(p, "StopIteration", "next()", pos[0], e.lineno, fr)
         if isinstance(f, ast.Name) and f.id == "len" and pos and pos[0] == ("c", None):
             self.xsite(p, "TypeError", "none-len", pos[0], e.lineno, fr)
+
+    def pattern_sv(self, pat, subj, p, fr):
+        """(condition SV, captured names) of a structural pattern; None for patterns outside the subset"""
+        if isinstance(pat, ast.MatchAs):
+            if pat.pattern is None:
+                return ("c", True), ({pat.name: subj} if pat.name else {})
+            c, b = self.pattern_sv(pat.pattern, subj, p, fr)
+            if c is None:
+                return None, {}
+            if pat.name:
+                b = dict(b)
+                b[pat.name] = subj
+            return c, b
+        if isinstance(pat, ast.MatchValue):
+            return self.cmp("Eq", subj, self.ev(pat.value, p, fr)), {}
+        if isinstance(pat, ast.MatchSingleton):
+            return self.cmp("Is", subj, ("c", pat.value)), {}
+        if isinstance(pat, ast.MatchClass) and not pat.patterns and not pat.kwd_attrs:
+            return ("call", "isinstance", (subj, ("g", ast.unparse(pat.cls))), pat.lineno), {}
+        if isinstance(pat, ast.MatchOr):
+            cs = [self.pattern_sv(x, subj, p, fr)[0] for x in pat.patterns]
+            if any(c is None for c in cs):
+                return None, {}
+            return ("bool", "or", tuple(cs)), {}
+        return None, {}
 
     def fork_or_memo(self, e, callee, p, fr):
         key = ("memo", id(e))
@@ -837,10 +865,50 @@ class Engine:
             for h in s.handlers:
                 q = entry.clone()
                 q.guards.append((("exc", ast.unparse(h.type) if h.type else "BaseException", s.lineno), True, h.lineno))
+                if h.name:
+                    q.store[("l", fr["id"], h.name)] = ("excval", ast.unparse(h.type) if h.type else "BaseException", s.lineno)
                 out.extend(self.block(h.body, [q], fr))
             return self.block(s.finalbody, out, fr) if s.finalbody else out
         if isinstance(s, (ast.FunctionDef, ast.AsyncFunctionDef, ast.ClassDef, ast.Import, ast.ImportFrom, ast.Global, ast.Nonlocal)):
             return [p]
+        if isinstance(s, ast.Match):
+            subj = self.ev(s.subject, p, fr)
+            out, rest = [], [p]
+            for case in s.cases:
+                nxt = []
+                for q in rest:
+                    cond, binds = self.pattern_sv(case.pattern, subj, q, fr)
+                    if cond is None:
+                        raise Unsupported("match pattern")
+                    t, f = self.branch(cond, q, case.pattern.lineno) if cond != ("c", True) else ([q], [])
+                    for x in t:
+                        for k, v in binds.items():
+                            x.store[("l", fr["id"], k)] = v
+                    if case.guard is not None:
+                        t2 = []
+                        for x in t:
+                            tt, ff = self.cond(case.guard, x, fr)
+                            t2 += tt
+                            f = f + ff
+                        t = t2
+                    out.extend(self.block(case.body, t, fr))
+                    nxt.extend(f)
+                rest = nxt
+            return out + rest
+        if isinstance(s, (ast.With, ast.AsyncWith)):
+            names = []
+            for it in s.items:
+                ce_ = it.context_expr
+                if isinstance(ce_, ast.Call) and ast.unparse(ce_.func).endswith("suppress") and it.optional_vars is None:
+                    names += [ast.unparse(a.value if isinstance(a, ast.Starred) else a) for a in ce_.args]
+                else:
+                    raise Unsupported("With")
+            # with suppress(E...): body  ==  try: body / except E...: pass
+            tr = ast.Try(body=s.body, handlers=[ast.ExceptHandler(type=ast.Tuple(elts=[ast.parse(n_, mode="eval").body for n_ in names], ctx=ast.Load()), name=None, body=[ast.Pass()])],
+                         orelse=[], finalbody=[])
+            ast.copy_location(tr, s)
+            ast.fix_missing_locations(tr)
+            return self._stmt(tr, p, fr)
         raise Unsupported(type(s).__name__)
 
     def exec_call(self, e, p: Path, fr):
